@@ -18,14 +18,14 @@ ASSUMPTIONS = [
     "tolerance max(1e-9, 5000*eps*e^G) (double) / 5e-5 (single) of sum|q0| * max|F|: rounding of linear shooting is amplified by e^G",
     "conditioning guard G = sum Re(lambda) dz <= 18 at the largest retained wavenumber (DESIGN section 3)",
 ]
-MIN_NONTRIVIAL = {"quick": 150, "thorough": 3000}
-TIMEOUT = {"quick": 900, "thorough": 3000}
+MIN_NONTRIVIAL = {"quick": 150, "thorough": 12000}
+TIMEOUT = {"quick": 900, "thorough": 7000}
 
 
 def cases(tier, seed):
     from vlib.gen import HALO_CLASSES
 
-    n = 192 if tier == "quick" else 3200
+    n = 192 if tier == "quick" else 16000
     return [{"seed": seed, "idx": i, "halo_class": HALO_CLASSES[i % len(HALO_CLASSES)]} for i in range(n)]
 
 
